@@ -2,6 +2,7 @@ import Gca.Server.Inv
 import Gca.Props.C02
 import Gca.Props.C01
 import Gca.Tie.Locks
+import Gca.Lemmas.SyncLemmas
 /-
 C13 - Concurrent operation is race-free, deadlock-free and equals a sequential run
 (the part a model can carry).
@@ -27,12 +28,267 @@ lockset condition on the skeletons; the race detector is supporting evidence onl
 namespace Gca.Srv
 open Gca
 
+/-! ### Helper lemmas: a datagram as a function on the one device it names -/
+
+/-- The report a datagram carries for device `k` (whose key is `key`), if the
+datagram passes every check of the UDP path that does not look at the window. -/
+def c13h_hit (V : Verify) (now : Nat) (key : Key) (k : Nat) (d : Bytes) : Option Report :=
+  if d.length < 80 then none else
+  match Report.decode (d.take 80) with
+  | none => none
+  | some r =>
+    if r.id = k ∧ V key (Report.signingBytes r) r.sig = true ∧
+       ¬ ((r.ts : Int) < (now : Int) - 432 ∨ (r.ts : Int) > (now : Int) + 432) ∧ ¬ (r.p = 0 ∨ r.p = 1)
+    then some r else none
+
+theorem c13h_hit_some {V : Verify} {now : Nat} {key : Key} {k : Nat} {d : Bytes} {r : Report}
+    (h : c13h_hit V now key k d = some r) :
+    ¬ d.length < 80 ∧ Report.decode (d.take 80) = some r ∧ r.id = k ∧
+    V key (Report.signingBytes r) r.sig = true ∧
+    ¬ ((r.ts : Int) < (now : Int) - 432 ∨ (r.ts : Int) > (now : Int) + 432) ∧ ¬ (r.p = 0 ∨ r.p = 1) := by
+  unfold c13h_hit at h
+  split at h
+  · cases h
+  rename_i hl
+  split at h
+  · cases h
+  rename_i r' hd
+  split at h
+  · rename_i hc
+    cases h
+    exact ⟨hl, hd, hc⟩
+  · cases h
+
+/-- What a datagram does to the entry of device `k`. -/
+def c13h_dstep (V : Verify) (off now : Nat) (d : Bytes) (k : Nat) (dv : Dev) : Dev :=
+  match c13h_hit V now dv.auth.key k d with
+  | none => dv
+  | some r =>
+    match integrateDev off dv r with
+    | some (dv', _) => dv'
+    | none => dv
+
+theorem c13h_dstep_none {V : Verify} {off now : Nat} {d : Bytes} {k : Nat} {dv : Dev}
+    (h : c13h_hit V now dv.auth.key k d = none) : c13h_dstep V off now d k dv = dv := by
+  simp [c13h_dstep, h]
+
+/-- `integrate` in terms of `integrateDev` on the device of the report. -/
+theorem c13h_integrate_dev (cfg : Cfg) (s : State) (r : Report) (dev : Dev)
+    (hg : s.devices.get r.id = some dev) (hlen : dev.reports.length = window) :
+    ∃ d' b s', integrateDev s.off dev r = some (d', b) ∧ integrate cfg s r = some (s', b) ∧
+      s'.off = s.off ∧ s'.devices.get r.id = some d' ∧
+      ∀ k, k ≠ r.id → s'.devices.get k = s.devices.get k := by
+  have hex : ∃ d' b, integrateDev s.off dev r = some (d', b) := by
+    by_cases hw : r.ts < s.off ∨ s.off + window ≤ r.ts
+    · exact ⟨dev, false, c02h_integrateDev_outside s.off dev r hw⟩
+    · obtain ⟨d', b, hi, _⟩ := c02h_integrateDev_spec s.off dev r hlen (by omega) (by omega)
+      exact ⟨d', b, hi⟩
+  obtain ⟨d', b, hi⟩ := hex
+  cases b with
+  | false =>
+    have : d' = dev := c04h_integrateDev_false hi
+    subst this
+    refine ⟨d', false, s, hi, ?_, rfl, hg, fun _ _ => rfl⟩
+    unfold integrate; rw [hg]; simp only [hi]
+  | true =>
+    refine ⟨d', true, { s with devices := s.devices.set r.id d',
+                               recentR := pushRecent cfg.maxRecent s.recentR r,
+                               disk := { s.disk with reports := s.disk.reports ++ [r] } }, hi, ?_, ?_, ?_, ?_⟩
+    · unfold integrate; rw [hg]; simp only [hi]
+    · rfl
+    · exact FMap.get_set_same _ _ _
+    · intro k hk; exact FMap.get_set_ne _ _ _ _ (Ne.symm hk)
+
+/-- A datagram keeps the window offset and acts on every device entry by `c13h_dstep`. -/
+theorem c13h_dgram_dev (cfg : Cfg) (V : Verify) (s : State) (now : Nat) (d : Bytes) (hinv : Inv s) :
+    (dgram cfg V s now d).1.off = s.off ∧
+    ∀ k, (dgram cfg V s now d).1.devices.get k = (s.devices.get k).map (c13h_dstep V s.off now d k) := by
+  have hid : ∀ k, (∀ dv, s.devices.get k = some dv → c13h_hit V now dv.auth.key k d = none) →
+      s.devices.get k = (s.devices.get k).map (c13h_dstep V s.off now d k) := by
+    intro k h
+    cases hg : s.devices.get k with
+    | none => rfl
+    | some dv => simp [c13h_dstep_none (h dv hg)]
+  unfold dgram
+  by_cases hl : d.length < 80
+  · rw [if_pos hl]
+    refine ⟨rfl, fun k => hid k (fun dv _ => ?_)⟩
+    simp [c13h_hit, hl]
+  · rw [if_neg hl]
+    cases hp : parseReport V s (d.take 80) with
+    | none =>
+      refine ⟨rfl, fun k => hid k (fun dv hg => ?_)⟩
+      cases hh : c13h_hit V now dv.auth.key k d with
+      | none => rfl
+      | some r =>
+        obtain ⟨_, hd, hk, hv, _⟩ := c13h_hit_some hh
+        subst hk
+        have := c01h_parseReport_none hp r dv hd hg
+        rw [this] at hv; cases hv
+    | some r =>
+      simp only
+      obtain ⟨hd, dev, hg, hv⟩ := c01h_parseReport_some hp
+      by_cases ht : (r.ts : Int) < (now : Int) - 432 ∨ (r.ts : Int) > (now : Int) + 432
+      · rw [if_pos ht]
+        refine ⟨rfl, fun k => hid k (fun dv _ => ?_)⟩
+        simp [c13h_hit, hl, hd, ht]
+      · rw [if_neg ht]
+        by_cases hp0 : r.p = 0 ∨ r.p = 1
+        · rw [if_pos hp0]
+          refine ⟨rfl, fun k => hid k (fun dv _ => ?_)⟩
+          simp [c13h_hit, hl, hd, hp0]
+        · rw [if_neg hp0]
+          obtain ⟨d', b, s', hi, hint, hoff, hget, hoth⟩ :=
+            c13h_integrate_dev cfg s r dev hg (hinv.devOk _ _ hg).2.1
+          rw [hint]
+          refine ⟨hoff, fun k => ?_⟩
+          show s'.devices.get k = _
+          by_cases hk : k = r.id
+          · subst hk
+            rw [hget, hg]
+            have hh : c13h_hit V now dev.auth.key r.id d = some r := by
+              simp [c13h_hit, hl, hd, hv, ht, hp0]
+            simp [c13h_dstep, hh, hi]
+          · rw [hoth k hk]
+            refine hid k (fun dv _ => ?_)
+            have hk' : ¬ r.id = k := fun e => hk e.symm
+            simp [c13h_hit, hl, hd, hk']
+
+/-! ### Slot level -/
+
+/-- The report a datagram contributes to slot `i` of device `k`, if any. -/
+def c13h_sel (V : Verify) (off now : Nat) (key : Key) (k i : Nat) (d : Bytes) : Option Report :=
+  match c13h_hit V now key k d with
+  | some r => if off ≤ r.ts ∧ r.ts < off + window ∧ r.ts - off = i then some r else none
+  | none => none
+
+def c13h_act (cap : Nat) (o : Option Report) (x : Report) : Report :=
+  match o with
+  | some r => slotStep cap x r
+  | none => x
+
+theorem c13h_sel_valid {V : Verify} {off now : Nat} {key : Key} {k i : Nat} {d : Bytes} {r : Report}
+    (h : c13h_sel V off now key k i d = some r) : ValidP r := by
+  unfold c13h_sel at h
+  split at h
+  · rename_i r' hh
+    split at h
+    · cases h
+      obtain ⟨_, _, _, _, _, hp⟩ := c13h_hit_some hh
+      exact ⟨fun e => hp (Or.inl e), fun e => hp (Or.inr e)⟩
+    · cases h
+  · cases h
+
+/-- `c13h_dstep` keeps the authorization and acts on slot `i` by the per-slot rule. -/
+theorem c13h_dstep_slot (V : Verify) (off now : Nat) (d : Bytes) (k : Nat) (dv : Dev)
+    (hlen : dv.reports.length = window) :
+    (c13h_dstep V off now d k dv).auth = dv.auth ∧
+    ∀ i, (c13h_dstep V off now d k dv).reports[i]? =
+      (dv.reports[i]?).map (c13h_act dv.auth.cap (c13h_sel V off now dv.auth.key k i d)) := by
+  have hidm : ∀ o : Option Report, o.map (c13h_act dv.auth.cap none) = o := by
+    intro o; cases o <;> rfl
+  cases hh : c13h_hit V now dv.auth.key k d with
+  | none =>
+    rw [c13h_dstep_none hh]
+    refine ⟨rfl, fun i => ?_⟩
+    simp only [c13h_sel, hh, hidm]
+  | some r =>
+    by_cases hw : r.ts < off ∨ off + window ≤ r.ts
+    · have hi := c02h_integrateDev_outside off dv r hw
+      have hd : c13h_dstep V off now d k dv = dv := by simp [c13h_dstep, hh, hi]
+      rw [hd]
+      refine ⟨rfl, fun i => ?_⟩
+      have : ¬ (off ≤ r.ts ∧ r.ts < off + window ∧ r.ts - off = i) := by omega
+      simp only [c13h_sel, hh, this, if_false, hidm]
+    · obtain ⟨d', b, hi, ha, _, _, hslot, hother⟩ :=
+        c02h_integrateDev_spec off dv r hlen (by omega) (by omega)
+      have hd : c13h_dstep V off now d k dv = d' := by simp [c13h_dstep, hh, hi]
+      rw [hd]
+      refine ⟨ha, fun i => ?_⟩
+      by_cases hi' : i = r.ts - off
+      · subst hi'
+        have hlt : r.ts - off < dv.reports.length := by rw [hlen]; omega
+        have hc : off ≤ r.ts ∧ r.ts < off + window ∧ r.ts - off = r.ts - off := ⟨by omega, by omega, rfl⟩
+        rw [hslot, List.getElem?_eq_getElem hlt]
+        simp only [c13h_sel, hh, hc, and_self, if_true, Option.map_some, c13h_act, Option.getD_some]
+      · have hc : ¬ (off ≤ r.ts ∧ r.ts < off + window ∧ r.ts - off = i) := fun h => hi' h.2.2.symm
+        rw [hother i hi']
+        simp only [c13h_sel, hh, hc, if_false, hidm]
+
+theorem c13h_fold_filterMap (cap : Nat) (sel : Bytes → Option Report) (ds : List Bytes) (x : Report) :
+    ds.foldl (fun x d => c13h_act cap (sel d) x) x = (ds.filterMap sel).foldl (slotStep cap) x := by
+  induction ds generalizing x with
+  | nil => rfl
+  | cons d t ih =>
+    rw [List.foldl_cons, ih]
+    cases h : sel d with
+    | none => simp [h, c13h_act]
+    | some r => simp [h, c13h_act]
+
+/-- On an empty slot (whatever else it holds) the first valid report is stored as on the zero slot. -/
+theorem c13h_fold_empty (cap : Nat) (x : Report) (hx : x.p = 0) (rs : List Report) (hne : rs ≠ [])
+    (hv : ∀ r ∈ rs, ValidP r) : rs.foldl (slotStep cap) x = rs.foldl (slotStep cap) Report.zero := by
+  cases rs with
+  | nil => exact absurd rfl hne
+  | cons r t =>
+    have hr : ValidP r := hv r (by simp)
+    have h1 : ¬ x = r := by intro e; apply hr.1; rw [← e]; exact hx
+    have h2 : ¬ Report.zero = r := by intro e; apply hr.1; rw [← e]; rfl
+    have hz : Report.zero.p = 0 := rfl
+    have : slotStep cap x r = slotStep cap Report.zero r := by
+      simp [slotStep, hx, hz, h1, h2]
+    rw [List.foldl_cons, List.foldl_cons, this]
+
+/-- The published value of a slot after folding valid reports into it does not
+depend on their order, whatever the slot held before. -/
+theorem c13h_slot_perm (cap : Nat) (x : Report) (rs rs' : List Report) (h : rs.Perm rs')
+    (hv : ∀ r ∈ rs, ValidP r) :
+    (rs.foldl (slotStep cap) x).p = (rs'.foldl (slotStep cap) x).p := by
+  have hv' : ∀ r ∈ rs', ValidP r := fun r hr => hv r (h.mem_iff.2 hr)
+  by_cases h1 : x.p = 1
+  · rw [c02h_foldl_banned cap x rs h1, c02h_foldl_banned cap x rs' h1]
+  · by_cases h0 : x.p = 0
+    · by_cases hne : rs = []
+      · subst hne
+        have : rs' = [] := h.symm.eq_nil
+        subst this; rfl
+      · have hne' : rs' ≠ [] := fun e => hne (by rw [e] at h; exact h.eq_nil)
+        rw [c13h_fold_empty cap x h0 rs hne hv, c13h_fold_empty cap x h0 rs' hne' hv']
+        exact c02_perm cap rs rs' h hv
+    · rw [c02h_foldl_stored cap x rs ⟨h0, h1⟩, c02h_foldl_stored cap x rs' ⟨h0, h1⟩, h.all_eq]
+
+/-- The view of slot `i` of device `k` after a batch of datagrams, as a fold of the per-slot rule. -/
+theorem c13h_run_slot (cfg : Cfg) (V : Verify) (now : Nat) (k i : Nat) (ds : List Bytes) (s : State)
+    (hinv : Inv s) :
+    ((ds.foldl (fun s d => (dgram cfg V s now d).1) s).devices.get k).map
+        (fun dv => (dv.auth, dv.reports[i]?)) =
+      (s.devices.get k).map (fun dv => (dv.auth, (dv.reports[i]?).map (fun x =>
+        ds.foldl (fun x d => c13h_act dv.auth.cap (c13h_sel V s.off now dv.auth.key k i d) x) x))) := by
+  induction ds generalizing s with
+  | nil =>
+    simp only [List.foldl_nil]
+    cases s.devices.get k with
+    | none => rfl
+    | some dv => simp
+  | cons d t ih =>
+    rw [List.foldl_cons, ih _ (inv_dgram cfg V s now d hinv)]
+    obtain ⟨hoff, hdev⟩ := c13h_dgram_dev cfg V s now d hinv
+    rw [hoff, hdev k]
+    cases hg : s.devices.get k with
+    | none => rfl
+    | some dv =>
+      obtain ⟨ha, hs⟩ := c13h_dstep_slot V s.off now d k dv (hinv.devOk _ _ hg).2.1
+      simp only [Option.map_some, ha, hs i, Option.map_map, List.foldl_cons]
+      rfl
+
 /-- What `Tie.locks_entries_ok` establishes, spelled out: for every extracted unit
 entered with no lock held, every execution path ends with all mutexes released
 and no locking mistake on the way. -/
 theorem c13_lock_discipline (name : String) (p : Lock.Prog) (h : (name, p) ∈ Gen.Locks.entries)
     (o : Lock.Out) (hr : Lock.RunF p ⟨[], []⟩ o) : o = .done := by
-  sorry
+  have h1 := Tie.locks_entries_ok
+  rw [List.all_eq_true] at h1
+  exact Lock.check_sound p [] (h1 (name, p) h) o hr
 
 /-- The published value of every slot after delivering a batch of datagrams does
 not depend on the order in which they arrive (same clock, no rotation in between). -/
@@ -41,19 +297,138 @@ theorem c13_order_independent (cfg : Cfg) (V : Verify) (s : State) (now : Nat) (
     let run := fun (l : List Bytes) => l.foldl (fun s d => (dgram cfg V s now d).1) s
     ((run ds).devices.get id).map (fun d => (d.reports[i]?).map (·.p)) =
     ((run ds').devices.get id).map (fun d => (d.reports[i]?).map (·.p)) := by
-  sorry
+  intro run
+  have h1 := congrArg (Option.map (fun (q : Auth × Option Report) => q.2.map (·.p)))
+    (c13h_run_slot cfg V now id i ds s hinv)
+  have h2 := congrArg (Option.map (fun (q : Auth × Option Report) => q.2.map (·.p)))
+    (c13h_run_slot cfg V now id i ds' s hinv)
+  simp only [Option.map_map] at h1 h2
+  show ((ds.foldl (fun s d => (dgram cfg V s now d).1) s).devices.get id).map _ =
+    ((ds'.foldl (fun s d => (dgram cfg V s now d).1) s).devices.get id).map _
+  refine h1.trans (Eq.trans ?_ h2.symm)
+  cases s.devices.get id with
+  | none => rfl
+  | some dv =>
+    simp only [Option.map_some, Function.comp_def, Option.map_map]
+    cases dv.reports[i]? with
+    | none => rfl
+    | some x =>
+      simp only [Option.map_some]
+      rw [c13h_fold_filterMap, c13h_fold_filterMap]
+      have hq := c13h_slot_perm dv.auth.cap x _ _
+        (hp.filterMap (c13h_sel V s.off now dv.auth.key id i)) (by
+          intro r hr
+          obtain ⟨d, _, hd⟩ := List.mem_filterMap.mp hr
+          exact c13h_sel_valid hd)
+      rw [hq]
+
+/-! ### The impact write as a function on the one device it names -/
+
+def c13h_istep (off id ts rate k : Nat) (dv : Dev) : Dev :=
+  if k = id ∧ off ≤ ts ∧ ts - off < window then { dv with impact := dv.impact.set (ts - off) rate } else dv
+
+theorem c13h_impact_dev (s : State) (id ts rate : Nat) :
+    (impactWrite s id ts rate).off = s.off ∧
+    ∀ k, (impactWrite s id ts rate).devices.get k = (s.devices.get k).map (c13h_istep s.off id ts rate k) := by
+  have hid : ∀ k, (∀ dv, s.devices.get k = some dv → c13h_istep s.off id ts rate k dv = dv) →
+      s.devices.get k = (s.devices.get k).map (c13h_istep s.off id ts rate k) := by
+    intro k h
+    cases hg : s.devices.get k with
+    | none => rfl
+    | some dv => simp [h dv hg]
+  unfold impactWrite
+  cases hg : s.devices.get id with
+  | none =>
+    refine ⟨rfl, fun k => hid k (fun dv hk => ?_)⟩
+    have : ¬ k = id := by intro e; rw [e, hg] at hk; cases hk
+    simp [c13h_istep, this]
+  | some d =>
+    simp only
+    by_cases hc : s.off ≤ ts ∧ ts - s.off < window
+    · rw [if_pos hc]
+      refine ⟨rfl, fun k => ?_⟩
+      show FMap.get (FMap.set s.devices id _) k = _
+      by_cases hk : k = id
+      · subst hk
+        rw [FMap.get_set_same, hg]
+        simp [c13h_istep, hc]
+      · rw [FMap.get_set_ne _ _ _ _ (Ne.symm hk)]
+        refine hid k (fun dv _ => ?_)
+        simp [c13h_istep, hk]
+    · rw [if_neg hc]
+      refine ⟨rfl, fun k => hid k (fun dv _ => ?_)⟩
+      have : ¬ (k = id ∧ s.off ≤ ts ∧ ts - s.off < window) := fun h => hc h.2
+      simp [c13h_istep, this]
+
+/-- `integrateDev` does not look at the impact array. -/
+theorem c13h_integrateDev_impact (off : Nat) (dv : Dev) (r : Report) (x : List Nat) :
+    integrateDev off { dv with impact := x } r =
+      (integrateDev off dv r).map (fun q => ({ q.1 with impact := x }, q.2)) := by
+  unfold integrateDev
+  simp only
+  split
+  · rfl
+  split
+  · rfl
+  split
+  · rfl
+  split
+  · rfl
+  split
+  · rfl
+  rfl
+
+theorem c13h_steps_commute (V : Verify) (off now : Nat) (d : Bytes) (id ts rate k : Nat) (dv : Dev) :
+    c13h_istep off id ts rate k (c13h_dstep V off now d k dv) =
+      c13h_dstep V off now d k (c13h_istep off id ts rate k dv) := by
+  unfold c13h_istep
+  by_cases hc : k = id ∧ off ≤ ts ∧ ts - off < window
+  · rw [if_pos hc, if_pos hc]
+    unfold c13h_dstep
+    simp only
+    cases c13h_hit V now dv.auth.key k d with
+    | none => rfl
+    | some r =>
+      simp only
+      have key := c13h_integrateDev_impact off dv r (dv.impact.set (ts - off) rate)
+      cases hi : integrateDev off dv r with
+      | none =>
+        rw [hi] at key
+        simp only [Option.map_none] at key
+        simp only [key]
+      | some q =>
+        obtain ⟨dv', b⟩ := q
+        have himp := (integrateDev_keeps hi).2.2
+        rw [hi] at key
+        simp only [Option.map_some] at key
+        simp only [key, himp]
+  · rw [if_neg hc, if_neg hc]
 
 /-- The impact job's write commutes with a datagram: either order gives the same devices. -/
 theorem c13_impact_commutes (cfg : Cfg) (V : Verify) (s : State) (now : Nat) (d : Bytes) (id ts rate : Nat)
     (hinv : Inv s) (k : Nat) :
     (impactWrite (dgram cfg V s now d).1 id ts rate).devices.get k =
     ((dgram cfg V (impactWrite s id ts rate) now d).1).devices.get k := by
-  sorry
+  obtain ⟨hoff1, hdev1⟩ := c13h_dgram_dev cfg V s now d hinv
+  obtain ⟨hoff2, hdev2⟩ := c13h_impact_dev s id ts rate
+  obtain ⟨_, hdev3⟩ := c13h_impact_dev (dgram cfg V s now d).1 id ts rate
+  obtain ⟨_, hdev4⟩ := c13h_dgram_dev cfg V (impactWrite s id ts rate) now d (inv_impactWrite s id ts rate hinv)
+  rw [hdev3 k, hdev4 k, hdev1 k, hdev2 k, hoff1, hoff2]
+  cases s.devices.get k with
+  | none => rfl
+  | some dv =>
+    simp only [Option.map_some]
+    rw [c13h_steps_commute]
 
 /-- A sync reply's key, offset, bitfield and migration order all come from one state (one critical section). -/
 theorem c13_sync_atomic (s : State) (id : Nat) (d : Dev) (h : s.devices.get id = some d) :
     ∃ servers, sync s id = .syncReply d.auth.key s.off (d.reports.map (fun r => decide (r.p > 0)))
       (s.migs.get d.auth.key) servers := by
-  sorry
+  unfold sync
+  rw [h]
+  simp only
+  cases s.migs.get d.auth.key with
+  | none => exact ⟨s.servers, rfl⟩
+  | some m => exact ⟨[], rfl⟩
 
 end Gca.Srv
